@@ -41,10 +41,23 @@ type pxState struct {
 	bseq   map[string]*ByteSeq // symbolic []byte values
 	visits map[string]int
 	steps  *int
+	trace  []pxEvent
+}
+
+// pxEvent: something a rule asked to remember along the path.
+type pxEvent struct {
+	Kind  string
+	Call  *ssa.Call
+	Frame *pxFrame
+	Args  []*Term
+	Env   Env
+	Pos   string
+	Extra string
 }
 
 func (s *pxState) clone() *pxState {
 	c := &pxState{env: s.env.clone(), vals: make(map[string]*Term, len(s.vals)), bseq: make(map[string]*ByteSeq, len(s.bseq)), visits: make(map[string]int, len(s.visits)), steps: s.steps}
+	c.trace = append([]pxEvent(nil), s.trace...)
 	for k, v := range s.vals {
 		c.vals[k] = v
 	}
@@ -62,6 +75,8 @@ type pxHooks struct {
 	onInstr func(fr *pxFrame, in ssa.Instruction, st *pxState) bool
 	// onReturn is called when the ROOT frame returns.
 	onReturn func(fr *pxFrame, ret *ssa.Return, results []*Term, st *pxState)
+	// onBlock is called when a block is entered.
+	onBlock func(fr *pxFrame, b *ssa.BasicBlock, st *pxState)
 	// inline decides whether a static in-package callee is stepped into
 	// (nil: every package function with a body, depth < 4, not on the stack).
 	inline func(fr *pxFrame, callee *ssa.Function) bool
@@ -82,6 +97,8 @@ type PX struct {
 
 func (w *World) newPX(h pxHooks) *PX {
 	p := &PX{w: w, hooks: h, maxPaths: 4000, maxSteps: 400000}
+	p.curFrame = &pxFrame{subst: map[*ssa.Parameter]*Term{}}
+	p.cur = &pxState{env: Env{}, vals: map[string]*Term{}, bseq: map[string]*ByteSeq{}, visits: map[string]int{}}
 	p.f = &Flow{w: w, terms: map[ssa.Value]*Term{}}
 	p.f.termHook = func(v ssa.Value) *Term { return p.term(v, p.curFrame, p.cur) }
 	return p
@@ -274,6 +291,12 @@ func (p *PX) eval(v ssa.Value, fr *pxFrame, st *pxState) (ISet, evalFlags) {
 }
 
 func (p *PX) evalTerm(t *Term, st *pxState) (ISet, evalFlags) {
+	if st.vals == nil {
+		st.vals = map[string]*Term{}
+	}
+	if st.bseq == nil {
+		st.bseq = map[string]*ByteSeq{}
+	}
 	p.cur = st
 	return p.f.Eval(t, st.env)
 }
@@ -330,6 +353,9 @@ func (p *PX) block(fr *pxFrame, b *ssa.BasicBlock, pred *ssa.BasicBlock, st *pxS
 		for i, n := range names {
 			st.vals[n] = vals[i]
 		}
+	}
+	if p.hooks.onBlock != nil {
+		p.hooks.onBlock(fr, b, st)
 	}
 	p.instrs(fr, b, 0, st, k)
 }
